@@ -225,7 +225,7 @@ func HarnessC13Missing() {
 // a job with several keys that do not fit its kind.
 func HarnessC13Siblings() {
 	s := yScalar
-	switch verifChoose("case", 4) {
+	switch verifChoose("case", 6) {
 	case 0, 1:
 		cronVal := []string{"", "invalid"}[verifChoose("cron", 2)]
 		cron := s(cronVal)
@@ -247,6 +247,16 @@ func HarnessC13Siblings() {
 		p.parse(doc)
 		verifReach("call-job")
 		verifCheck(verifErrAt(p.errors, k1) >= 1 && verifErrAt(p.errors, k2) >= 1, "inapplicable-job-key-not-reported")
+	case 4:
+		// a stray `with` does not hide the missing mandatory keys
+		k1 := s("with")
+		jid := s("j")
+		doc := yDoc(yMap(s("on"), s("push"), s("jobs"), yMap(jid, yMap(s("steps"), ySeq(yMap(s("run"), s("echo"))), k1, yMap(s("a"), s("b"))))))
+		verifPlace(doc, 1, 0)
+		p := &parser{}
+		p.parse(doc)
+		verifReach("normal-job")
+		verifCheck(verifErrAt(p.errors, k1) >= 1 && verifErrAt(p.errors, jid) >= 1, "missing-mandatory-key-hidden-by-an-unknown-sibling")
 	default:
 		k1, k2 := s("with"), s("secrets")
 		doc := yDoc(yMap(s("on"), s("push"), s("jobs"), yMap(s("j"), yMap(s("runs-on"), s("ubuntu-latest"), s("steps"), ySeq(yMap(s("run"), s("echo"))), k1, yMap(s("a"), s("b")), k2, yMap(s("c"), s("d"))))))
